@@ -8,11 +8,13 @@ import time
 import traceback
 
 HERE = os.path.dirname(os.path.dirname(os.path.abspath(__file__)))
-EVID = os.path.join(HERE, 'evidence')
-REPLAY = os.path.join(HERE, 'replay')
+# dev-only redirections (seed / mutant runs must not overwrite the evidence of the registered checks)
+EVID = os.environ.get('RV_EVIDENCE_DIR') or os.path.join(HERE, 'evidence')
+REPLAY = os.environ.get('RV_REPLAY_DIR') or os.path.join(HERE, 'replay')
 KNOWN = os.path.join(HERE, 'known_findings.json')
 
 EXIT_OK, EXIT_VIOLATION, EXIT_INCONCLUSIVE = 0, 1, 3
+DEGENERATE_REJECTIONS = ('Constraint must contain decision variables', 'You passed a constant to `subject_to`', 'constraint that is never statisfied')
 
 
 def run_one(mod, prop, item):
@@ -30,6 +32,10 @@ def run_one(mod, prop, item):
         loc = str(e).split('|')[0]
         if item.get('may_raise'):
             res = {'status': 'ok', 'rejected': str(e), 'stats': {}, 'obligations': 1, 'discharged': 1}
+        elif item.get('family') == 'random' and any(m in str(e) for m in DEGENERATE_REJECTIONS):
+            # a randomly generated constraint instance turned out decision-free at one grid point (e.g. t = 0 at the first node):
+            # rejecting it is the documented behaviour; the instance decides nothing -> skipped and counted, never passed
+            res = {'status': 'skipped', 'why': 'random specification has a decision-free constraint instance, rejected by rockit: %s' % str(e)[-120:]}
         else:
             res = {'status': 'violation', 'violations': [{
                 'property': prop.upper(), 'key': 'raises|%s|%s|%s' % (loc, str(e).split('|', 1)[1].split(':')[0] if '|' in str(e) else '', item['cfg'].method if 'cfg' in item else ''),
